@@ -184,6 +184,9 @@ func cmdCheck(args []string) int {
 		}
 		if res.Unsupported != "" {
 			unsupported = append(unsupported, k+": "+res.Unsupported)
+			if strings.HasPrefix(res.Unsupported, "too many paths") {
+				res.Obls = nil // see cmdVerify
+			}
 		}
 		funcsUnder = append(funcsUnder, k)
 		if *updateBaseline {
